@@ -200,3 +200,109 @@ Example C11_goroutines_example :
   | None => False
   end.
 Proof. vm_compute. repeat split. Qed.
+
+(* ==== the goroutines that own a drain obligation (build-U11) ===============================
+   C11_mex_empty and C11_relay_empty assume "every exchange has shut down" / "no handler still
+   holds an id whose timer it stopped".  The theorems below discharge these hypotheses for the
+   code paths that own them, with the paths' exits regenerated from the source on every run. *)
+From Verif Require Import Gen.GenWriterExit Gen.GenRelayExit Model.CallDrain Model.RelayHold
+  Proofs.CallDrainP Proofs.CallDrainGenP Proofs.RelayHoldP Proofs.RelayHoldGenP.
+
+(* ---- no message exchanges: calls driven through the request/response writer -------------
+   For every history of calls on one exchange set (any number of calls, ids reused at will; every
+   call's owner calling writer operations -- ArgNWriter, continuation fragments, fragment
+   hand-overs whose select takes any of its clauses --, the two atomic halves of shutdown() as
+   separate steps, expiry watchers, stopExchanges and frame lookups interleaved at will): once
+   every call is over for its owner (it reached its normal end, or the owner dropped it after an
+   operation returned an error), every exchange object has finished shutting down and exchanges
+   and expiredExchanges are empty. *)
+Theorem C11_calls_drained : forall ls s,
+  crun cs_init ls = Some s -> calls_over s = true ->
+  mex_finished (cs_mex s) = true /\ ms_exch (cs_mex s) = [] /\ ms_expired (cs_mex s) = [].
+Proof. exact calls_drained. Qed.
+Print Assumptions C11_calls_drained.
+
+(* The writer exits used by that model are those of reqres.go as regenerated on this run
+   (failed, argWriter, newFragment, flushFragment with its select). *)
+Theorem C11_writer_exits_generated :
+  (forall werr, writerFailed werr = w_failed werr) /\
+  (forall werr state_ok begin_err, writerArgWriter werr state_ok begin_err = w_arg_writer werr state_ok begin_err) /\
+  (forall werr check_err msg_err buf_err,
+     writerNewFragment werr check_err msg_err buf_err = w_new_fragment werr check_err msg_err buf_err) /\
+  (forall werr check_err arm, writerFlushFragment werr check_err arm = w_flush_fragment werr check_err arm).
+Proof. exact writer_exits_generated. Qed.
+Print Assumptions C11_writer_exits_generated.
+
+(* Every exit of the regenerated flushFragment with an error (bit 0) has called mex.shutdown()
+   (bit 2), whichever select clause ran: arm 0 = the call's context is done, 1 = the exchange's
+   error latch, 2 = the frame was queued -- unless the writer had failed, and shut down, before. *)
+Theorem C11_flush_error_shuts_generated : forall werr check_err arm,
+  0 <= arm <= 2 ->
+  Z.testbit (writerFlushFragment werr check_err arm) 0 = true ->
+  Z.testbit (writerFlushFragment werr check_err arm) 2 = true \/ werr = true.
+Proof. exact flush_fragment_error_shuts_generated. Qed.
+Print Assumptions C11_flush_error_shuts_generated.
+
+(* ---- no relay items or tombstones: the frame paths as threads ----------------------------
+   For every maxTombs and every history of one relay item map (calls admitted, timers firing,
+   tombstone collections, frames of any kind entering handleNonCallReq / Receive in any
+   interleaving -- each path doing after its lookup what the code does --, failRelayItem called
+   from anywhere, its lookup and its Entomb as separate steps): once no timer is armed and every
+   timer callback, collection and frame path has returned, the map holds no item and no
+   tombstone, the tombstone counter is 0 and the pending counter is 0. *)
+Theorem C11_relay_paths_drained : forall mt ls s,
+  hrun (hs_init mt) ls = Some s -> hold_quiet s = true ->
+  rs_items (hs_r s) = [] /\ rs_tombs (hs_r s) = 0 /\ rs_pending (hs_r s) = 0.
+Proof. exact relay_paths_drained. Qed.
+Print Assumptions C11_relay_paths_drained.
+
+(* What the two frame paths do after the lookup is what relay.go does, as regenerated on this run. *)
+Theorem C11_relay_exits_generated :
+  (forall ok item_tomb finished stopped mt parse_ok mutated dest_sent,
+     relayNonCallExit ok item_tomb finished stopped mt parse_ok mutated dest_sent =
+     nc_exit ok item_tomb finished stopped mt parse_ok mutated dest_sent) /\
+  (forall ok item_tomb finished stopped is_resp is_cancel dcs_ok dcs_msg queue_ok,
+     relayReceiveExit ok item_tomb finished stopped is_resp is_cancel dcs_ok dcs_msg queue_ok =
+     rc_exit ok item_tomb finished stopped is_resp is_cancel dcs_ok dcs_msg queue_ok).
+Proof. exact relay_exits_generated. Qed.
+Print Assumptions C11_relay_exits_generated.
+
+(* A stopped timer implies that the item is finished or failed by the same goroutine: on every
+   path of the regenerated handleNonCallReq / Receive whose lookup found a live item and stopped
+   its timer, failRelayItem (bit 2) or finishRelayItem (bit 3) is called -- for every message
+   type, for frames that parse and frames that do not, whatever the destination does. *)
+Theorem C11_stopped_timer_discharged_generated :
+  (forall mt parse_ok mutated dest_sent,
+     let c := relayNonCallExit true false true true mt parse_ok mutated dest_sent in
+     Z.testbit c 2 || Z.testbit c 3 = true) /\
+  (forall is_resp is_cancel dcs_ok dcs_msg queue_ok,
+     let c := relayReceiveExit true false true true is_resp is_cancel dcs_ok dcs_msg queue_ok in
+     Z.testbit c 2 || Z.testbit c 3 = true).
+Proof. exact stopped_timer_is_discharged_generated. Qed.
+Print Assumptions C11_stopped_timer_discharged_generated.
+
+(* call 0: its writer is blocked handing a fragment over when the deadline passes (select clause 0);
+   call 1 completes; an expiry and a lookup in between *)
+Example C11_calls_example :
+  let ls := [CBegin 5; COp 0 (OArgWriter true 0); COp 0 (OFlush false 2); CBegin 6; COp 0 (OFlush false 0);
+             CForward 5; CCas 0; CExpire 1; CRemove 0; COp 1 (OArgWriter true 0); COp 1 (OFlush false 2);
+             CGiveUp 0; CFinish 1; CCas 1; CRemove 1] in
+  match crun cs_init ls with
+  | Some s => calls_over s = true /\ length (cs_thr s) = 2%nat /\ ms_exch (cs_mex s) = [] /\ ms_rechecks (cs_mex s) = 3
+  | None => False
+  end.
+Proof. vm_compute. repeat split. Qed.
+
+(* item 7: a final call res that does not parse is forwarded and the item finished; item 8: the
+   destination cannot take the final frame, the path fails the item, the tombstone is collected;
+   item 9: a non-final frame passes, then the timer fires *)
+Example C11_relay_paths_example :
+  let ls := [HAdd 7; HAdd 8; HAdd 9; HFrame 7 true; HTail 0 (TNonCall 4 false false true);
+             HFrame 8 true; HTail 1 (TNonCall 4 true false false); HFailGet 1; HFrame 9 false;
+             HFailEntomb 1; HTail 2 (TReceive true false true false true); HFireStart 9; HFireEntomb 9;
+             HGc 8; HGc 9] in
+  match hrun (hs_init 30000) ls with
+  | Some s => hold_quiet s = true /\ length (hs_thr s) = 3%nat /\ rs_items (hs_r s) = [] /\ rs_pending (hs_r s) = 0
+  | None => False
+  end.
+Proof. vm_compute. repeat split. Qed.
